@@ -215,7 +215,7 @@ def _with_bases(d, name, shape, bases, lang, lf, mode, symbase=-1):
     return rec(shape)
 
 
-def h_seen(d, lang, sx, sy, lf, symbase):
+def h_seen(d, lang, sx, sy, lf, symbase, variant='two'):
     g = grammar(lang)
     nx = nleaves(sx)
     bases = ('S', 'N', 'N', 'S')
@@ -230,6 +230,10 @@ def h_seen(d, lang, sx, sy, lf, symbase):
     if lang == 'en':
         p, q = erase(p, ('X', 'nb')), erase(q, ('X', 'nb'))
     pairs = [(p, q), fixed]
+    if variant == 'empty':
+        pairs = []          # an empty seen-rule set contains no pair: every result must be filtered out
+    elif variant == 'one':
+        pairs = [(p, q)]
     seen = core.SymSet(pairs) if d.symbolic else set(pairs)
     free = g.apply_binary_rules(x, y)
     try:
@@ -350,6 +354,9 @@ def obligations(tier):
                 for symbase in range(-1, nleaves(sx) + nleaves(sy)):
                     yield Obligation('C14.seen[%s,%s,%s,lf=%d,symbase=%d]' % (lang, shape_name(sx), shape_name(sy), lf, symbase), 'h_seen',
                                      dict(lang=lang, sx=sx, sy=sy, lf=lf, symbase=symbase), cost=20)
+                for variant in ('empty', 'one'):
+                    yield Obligation('C14.seen[%s,%s,%s,lf=%d,%s set]' % (lang, shape_name(sx), shape_name(sy), lf, variant), 'h_seen',
+                                     dict(lang=lang, sx=sx, sy=sy, lf=lf, symbase=-1, variant=variant), cost=10)
         for nkeys in (1, 2, 3):
             for sk in (['a', ('a', 'a')] if q else shapes_upto(3)):
                 if nkeys * nleaves(sk) > (3 if q else 6):
